@@ -341,7 +341,7 @@ RScaleV(s, x) == Eager([p \in 1..Len(x) |-> RScale(s, x[p])], Len(x))
    ne = len(energy); smear in {"none", "nonpos", "pos"}; wide: the smearing is so large that the kernel certainly spans
    several grid steps.  Energy grids are ascending (named predicate; a descending grid is outside the specified
    domain, the harness reports what happens as an observation). *)
-Ascending(dEsign) == dEsign > 0
+AscendingGrid(dEsign) == dEsign > 0
 SmootherIsVoidCase(hasE, ne, smear) == ~hasE \/ smear \in {"none", "nonpos"} \/ ne <= 1
 (* got in {"identity", "smoothing", "raises"} : observed on one-hot arrays *)
 GetSmootherActsOK(hasE, ne, smear, wide, got) ==
